@@ -208,7 +208,7 @@ func checkC14() fw.Check {
 	return fw.Check{
 		Prop:  "C14",
 		Level: "exploration",
-		Rule: "built-in race detector (GORACE halt_on_error=0, log_path) over real goroutines on the real clock: (a) every parallel-capable variant (icmp4/6, udp4/6, sackR/S) on an UNSYNCHRONISED pre-seeded wire whose Sink and Source share no lock/atomic/channel, with replies for every TTL circulating continuously so each is read both before its probe is recorded (early/stale/spoofed) and after, and in every third repetition one send failing after a stall (the send's error path runs against the receive path); (b) K concurrent runs of mixed protocols over the ordinary simulated wire (allocators, echo ids, math/rand); (d) allocator bursts: 16 goroutines released at once draw IP-id blocks and echo ids, all blocks of one burst (< 65536 identifiers) must be disjoint (lost updates of a non-atomic read-modify-write are invisible to the race detector); (c) whole RunTraceroute requests with reverse-DNS fan-out, public-IP fetch and some participants failing at the same time, and six requests served at once by one server.Server (one shared Traceroute value) through TracerouteHandler; each workload repeated R times; reports are de-duplicated by the pair of first repository frames; a report without repository frames makes the run inconclusive (harness race). " +
+		Rule: "built-in race detector (GORACE halt_on_error=0, log_path) over real goroutines on the real clock: (a) every parallel-capable variant (icmp4/6, udp4/6, sackR/S) on an UNSYNCHRONISED pre-seeded wire whose Sink and Source share no lock/atomic/channel, with replies for every TTL circulating continuously so each is read both before its probe is recorded (early/stale/spoofed) and after, and in every third repetition one send failing after a stall (the send's error path runs against the receive path); (b) K concurrent runs of mixed protocols over the ordinary simulated wire (allocators, echo ids, math/rand); (d) allocator bursts: 16 goroutines released at once draw IP-id blocks and echo ids, all blocks of one burst (< 65536 identifiers) must be disjoint (lost updates of a non-atomic read-modify-write are invisible to the race detector); (c) whole RunTraceroute requests with reverse-DNS fan-out, public-IP fetch and some participants failing at the same time, and six requests served at once by one server.Server (one shared Traceroute value) through TracerouteHandler; (e) the CLI binary built with -race from the working tree (no verif tag) tracing kernel routers over the real AF_PACKET source and raw sink, several runs and end-to-end probes per process, its reports read from the same log directory; each workload repeated R times; reports are de-duplicated by the pair of first repository frames; a report without repository frames makes the run inconclusive (harness race). " +
 			"distinct_nontrivial counts (variant, had-early-reads, had-late-reads) and workload signatures observed; a variant without both early and late reads is inconclusive",
 		Workers:       1,
 		MinNontrivial: 12,
@@ -257,7 +257,7 @@ func checkC14() fw.Check {
 				cases = append(cases, fw.Case{ID: fmt.Sprintf("C14/request/%d", i), Run: func(c *fw.Ctx) { runC14Request(c, i) }})
 				cases = append(cases, fw.Case{ID: fmt.Sprintf("C14/server/%d", i), Run: func(c *fw.Ctx) { runC14Server(c, i) }})
 			}
-			return cases
+			return withKernelStage("C14", tier, cases)
 		},
 		Finish: func(c *fw.Ctx) { fw.ReportRaces(c, "") },
 	}
